@@ -229,7 +229,7 @@ func ToLib(r Rec) (dns.RR, error) {
 				err = setField(v, spec.LenGo, uint64(len(f.B)))
 			}
 		case IPv4:
-			err = setField(v, spec.Go, padIP(f.B, 4))
+			err = setField(v, spec.Go, libIP4(f.B))
 		case IPv6:
 			err = setField(v, spec.Go, padIP(f.B, 16))
 		case Bitmap:
@@ -237,7 +237,7 @@ func ToLib(r Rec) (dns.RR, error) {
 		case GW:
 			switch f.U {
 			case 1:
-				err = setField(v, "GatewayAddr", padIP(f.B, 4))
+				err = setField(v, "GatewayAddr", libIP4(f.B))
 			case 2:
 				err = setField(v, "GatewayAddr", padIP(f.B, 16))
 			case 3:
@@ -557,7 +557,7 @@ func OptToLib(o Option) (dns.EDNS0, error) {
 		e := &dns.EDNS0_SUBNET{Code: 8, Family: binary.BigEndian.Uint16(d), SourceNetmask: d[2], SourceScope: d[3]}
 		switch e.Family {
 		case 1:
-			e.Address = padIP(d[4:], 4)
+			e.Address = libIP4(d[4:])
 		case 2:
 			e.Address = padIP(d[4:], 16)
 		case 0:
@@ -596,7 +596,7 @@ func OptToLib(o Option) (dns.EDNS0, error) {
 		if err != nil || ref.End != len(d) || len(ref.Ptrs) > 0 {
 			return nil, bad
 		}
-		return &dns.EDNS0_REPORTING{Code: 18, AgentDomain: EscName(n)}, nil
+		return &dns.EDNS0_REPORTING{Code: 18, AgentDomain: libRelName(n)}, nil
 	case 19:
 		if len(d) < 2 {
 			return nil, bad
@@ -727,7 +727,7 @@ func ParamToLib(o Option) (dns.SVCBKeyValue, error) {
 		}
 		e := &dns.SVCBIPv4Hint{}
 		for i := 0; i < len(d); i += 4 {
-			e.Hint = append(e.Hint, padIP(d[i:i+4], 4))
+			e.Hint = append(e.Hint, libIP4(d[i:i+4]))
 		}
 		return e, nil
 	case 5:
